@@ -48,7 +48,8 @@ type op struct {
 }
 
 var readKinds = []string{"PreloadNested", "PreloadAll", "JoinsCompany", "FindInBatches", "Rows", "Scan", "Pluck", "Count", "First", "Last", "FirstOrCreate", "FirstOrInit",
-	"AssocAppend", "AssocReplace", "AssocDelete", "AssocClear", "AssocCount", "AssocFind", "AssocAppendM2M", "AssocReplaceM2M", "Raw", "Exec", "SavePoint", "PreloadCond"}
+	"AssocAppend", "AssocReplace", "AssocDelete", "AssocClear", "AssocCount", "AssocFind", "AssocAppendM2M", "AssocReplaceM2M", "Raw", "Exec", "SavePoint", "PreloadCond",
+	"NestedTxError", "NestedTxPanic", "TxError"}
 
 func genOp(r *core.Rand, idx int) op {
 	nk := len(txm.OpKinds)
@@ -169,6 +170,41 @@ func genOp(r *core.Rand, idx int) op {
 				tx.RollbackTo("sp1")
 				return tx.Transaction(func(tx2 *gorm.DB) error { return tx2.Model(&txm.User{ID: 1}).Update("age", 9).Error })
 			})
+		}
+	case "NestedTxError":
+		// the inner block fails: its ROLLBACK TO SAVEPOINT is a statement of the operation too
+		o.run = func(db *gorm.DB) error {
+			return db.Transaction(func(tx *gorm.DB) error {
+				if err := tx.Create(&txm.Company{Name: "outer"}).Error; err != nil {
+					return err
+				}
+				tx.Transaction(func(tx2 *gorm.DB) error {
+					tx2.Create(&txm.Company{Name: "inner"})
+					return fmt.Errorf("inner block fails")
+				})
+				return tx.Model(&txm.User{ID: 1}).Update("age", 8).Error
+			})
+		}
+	case "NestedTxPanic":
+		o.run = func(db *gorm.DB) error {
+			return db.Transaction(func(tx *gorm.DB) error {
+				func() {
+					defer func() { recover() }()
+					tx.Transaction(func(tx2 *gorm.DB) error {
+						tx2.Create(&txm.Company{Name: "inner"})
+						panic("inner block panics")
+					})
+				}()
+				return tx.Create(&txm.Company{Name: "after"}).Error
+			})
+		}
+	case "TxError":
+		o.run = func(db *gorm.DB) error {
+			db.Transaction(func(tx *gorm.DB) error {
+				tx.Create(&txm.Company{Name: "gone"})
+				return fmt.Errorf("block fails")
+			})
+			return db.First(&txm.Company{}).Error
 		}
 	default:
 		panic(kind)
@@ -295,7 +331,7 @@ func short(s string) string {
 var Engine = &core.Engine{
 	ID:    "C18",
 	Level: "exploration",
-	Rule: "operations = the 16 write kinds of C05 over seeded association graphs (hooks write through tx) + 24 read / association-mode / raw / savepoint kinds (nested and conditional Preload, clause.Associations, Joins, FindInBatches with a statement in the callback, Rows+ScanRows, Scan, Pluck, Count, First/Last, FirstOrCreate/Init, Association Append/Replace/Delete/Clear/Count/Find on has-many and many-to-many, Raw, Exec, SavePoint/RollbackTo/nested Transaction) x {PrepareStmt off, on} x nesting in 0..2 Transaction blocks x {WithContext, Session{Context}}; " +
+	Rule: "operations = the 16 write kinds of C05 over seeded association graphs (hooks write through tx) + 27 read / association-mode / raw / savepoint / failing-nested-block kinds (nested and conditional Preload, clause.Associations, Joins, FindInBatches with a statement in the callback, Rows+ScanRows, Scan, Pluck, Count, First/Last, FirstOrCreate/Init, Association Append/Replace/Delete/Clear/Count/Find on has-many and many-to-many, Raw, Exec, SavePoint/RollbackTo/nested Transaction) x {PrepareStmt off, on} x nesting in 0..2 Transaction blocks x {WithContext, Session{Context}}; " +
 		"each run twice: live context (every begin/prepare/exec/query/prepared-exec event and every hook must show the operation id) and cancelled context (no driver statement, error returned); distinct = (operation, PrepareStmt, nesting, entry, event kinds, size class); non-trivial = at least 2 context-carrying driver events",
 	Assumptions: []string{
 		"COMMIT/ROLLBACK carry no context in database/sql's driver interface and are not checked",
